@@ -67,7 +67,8 @@ seq_t dtw_warping_paths{{ suffix }}{{ suffix2 }}(seq_t *wps,
         }
         {%- if "euclidean" == inner_dist %}
         {%- else %}
-        p.max_dist = pow(p.max_dist, 2);
+        // sqrt followed by pow can round below the exact sum, keep the bound an upper bound
+        p.max_dist = pow(p.max_dist, 2) * (1 + 4*DBL_EPSILON);
         {%- endif %}
         if (settings->only_ub) {
             if (keep_int_repr) {
